@@ -115,6 +115,9 @@ class FakeWriter:
         return self.closed
 
     async def wait_closed(self):
+        # StreamWriter.wait_closed() waits for connection_lost, which the transport schedules with call_soon when
+        # close() is called: the caller is suspended for (at least) one loop iteration
+        await _sleep(0)
         return None
 
     def get_extra_info(self, key, default=None):
